@@ -269,11 +269,24 @@ CmdOK(c, o) ==
        \* -dns-ttl=100ms over three seconds, the name gone after 0.3 s: hits succeed while it resolves; once the answer is older
        \* than the ttl it is asked for again, so from 1.5 s after the name went no hit succeeds any more
        /\ (c.dnsdest = "expire" /\ Reaches(c) => o.early_ok >= 1 /\ o.late_n >= 1 /\ o.late_ok = 0)
-       \* -session-tickets: without it no TLS session is ever resumed; with it one sequential worker that opens a connection per
-       \* request makes one full handshake, every later connection resumes the session
-       /\ (~c.tickets => \A j \in 1..Len(o.reqs) : ~o.reqs[j].resumed)
-       /\ (c.tickets /\ ~c.keepalive /\ c.maxw = 1 /\ c.timeout = "default" /\ Reaches(c) /\ Proto(c) = "HTTP/1.1"
-             => Cardinality({j \in 1..Len(o.reqs) : ~o.reqs[j].resumed}) = 1)
        \* -prometheus-addr: by the time the last target is answered the exporter has counted the six results before it
        /\ (c.prom => o.prom_count >= 6)
+
+(*--------------------------- which check is asking ---------------------------*)
+\* The contract runs inside the checks of several listed properties (those whose anchors include the command's wiring) and on
+\* its own (`bin/vcheck ACMD`).  Flags that no listed property speaks about are judged only when it runs on its own, and those of
+\* one property only in the checks of that property: a change that breaks, say, -cert leaves C03 as true as it was.
+OwnOnly(c)  == c.server = "mtls" \/ c.clientcert # "none" \/ c.tickets          \* client certificates, session tickets: no listed property
+Concerns(c, p) ==
+    /\ (OwnOnly(c) => p = "ACMD")
+    /\ (c.redirects = "zero" => p \in {"ACMD", "C06"})                           \* the redirect limit is C06's
+    /\ (c.dnsdest # "none" => p \in {"ACMD", "C18", "C19"})                      \* -connect-to / -dns-ttl / -resolvers are C18's and C19's
+\* -session-tickets: without it no TLS session is ever resumed; with it one sequential worker that opens a connection per
+\* request makes one full handshake, every later connection resumes the session
+TicketsOK(c, o) ==
+    SetupFails(c) \/
+       (/\ (~c.tickets /\ c.server \in {"tls", "tls2", "mtls"} => \A j \in 1..Len(o.reqs) : ~o.reqs[j].resumed)
+        /\ (c.tickets /\ ~c.keepalive /\ c.maxw = 1 /\ c.timeout = "default" /\ Reaches(c) /\ Proto(c) = "HTTP/1.1"
+              => Cardinality({j \in 1..Len(o.reqs) : ~o.reqs[j].resumed}) = 1))
+CmdOKFor(c, o, p) == Concerns(c, p) => (CmdOK(c, o) /\ (p = "ACMD" => TicketsOK(c, o)))
 =============================================================================
